@@ -1468,7 +1468,8 @@ def balance_stoichiometry(
         products = sorted(products)
     subst_keys = list(reactants) + list(products)
 
-    cks = Substance.composition_keys(substances.values())
+    # only the species given take part (substances may hold more than those):
+    cks = Substance.composition_keys([substances[k] for k in subst_keys])
 
     if parametric_symbols is None:
         parametric_symbols = numbered_symbols("x", start=1, integer=True, positive=True)
